@@ -39,6 +39,7 @@ VARIABLES storage, deposit,   \* per realm: Realm.Storage, Realm.Deposit
 
 svars == <<storage, deposit, dbal, bal, price, restricted>>
 vars == <<svars, hist>>
+view == <<svars, Len(hist)>>
 
 \* Go: big.Int Div on non-negative operands = truncating division. Written so that no
 \* intermediate value exceeds c*c (TLC integers are 32-bit): (a*b) div c for b <= c.
@@ -47,8 +48,10 @@ MulDiv(a, b, c) == (a \div c) * b + ((a % c) * b) \div c
 Holders == Accounts \cup {Collector}
 
 \* state threaded through the sorted-realm loop
-St0(caller, limit) == [storage |-> storage, deposit |-> deposit, dbal |-> dbal, bal |-> bal,
-                       limit |-> limit, err |-> FALSE, panic |-> FALSE]
+\* (the ante handler has already taken the gas fee when the message runs)
+St0(caller, limit, fee) == [storage |-> storage, deposit |-> deposit, dbal |-> dbal,
+                            bal |-> [bal EXCEPT ![caller] = @ - fee],
+                            limit |-> limit, err |-> FALSE, panic |-> FALSE]
 
 Lock(s, r, caller, d, p) ==
   LET req == d * p IN
@@ -76,19 +79,19 @@ Loop(s, i, caller, diffs, p, restr) ==
                ELSE Refund(s, r, caller, 0 - d, restr),
                i + 1, caller, diffs, p, restr)
 
-Process(caller, limit, diffs) == Loop(St0(caller, limit), 1, caller, diffs, price, restricted)
-MsgOK(caller, limit, diffs) == LET s == Process(caller, limit, diffs) IN ~s.err /\ ~s.panic
+Process(caller, limit, fee, diffs) == Loop(St0(caller, limit, fee), 1, caller, diffs, price, restricted)
+Limit(maxDeposit) == IF maxDeposit = 0 THEN DefaultLimit ELSE maxDeposit
+MsgOK(caller, maxDeposit, fee, diffs) == LET s == Process(caller, Limit(maxDeposit), fee, diffs) IN ~s.err /\ ~s.panic
 
 \* A message: maxDeposit = 0 means params.DefaultDeposit. newPrice / newRestr = what the message
 \* itself wrote through the params keeper (applies after the message). fee = gas fee of the tx.
 Msg(caller, maxDeposit, fee, diffs, newPrice, newRestr) ==
-  LET limit == IF maxDeposit = 0 THEN DefaultLimit ELSE maxDeposit
-      s == Process(caller, limit, diffs)
+  LET s == Process(caller, Limit(maxDeposit), fee, diffs)
       ok == ~s.err /\ ~s.panic
   IN /\ bal[caller] >= fee
      /\ IF ok
         THEN /\ storage' = s.storage /\ deposit' = s.deposit /\ dbal' = s.dbal
-             /\ bal' = [s.bal EXCEPT ![caller] = @ - fee]
+             /\ bal' = s.bal
              /\ price' = newPrice /\ restricted' = newRestr
         ELSE /\ bal' = [bal EXCEPT ![caller] = @ - fee]
              /\ UNCHANGED <<storage, deposit, dbal, price, restricted>>
@@ -99,10 +102,9 @@ NonNegative == /\ \A r \in Realms : storage[r] >= 0 /\ deposit[r] >= 0 /\ dbal[r
                /\ \A a \in Holders : bal[a] >= 0
 FreeAllRefundsAll == \A r \in Realms : storage[r] = 0 => deposit[r] = 0
 \* nothing is created or destroyed by lock / refund (fees leave through `fee`)
-Total == LET RECURSIVE SumR(_), SumA(_)
-             SumR(X) == IF X = {} THEN 0 ELSE LET x == CHOOSE y \in X : TRUE IN dbal[x] + SumR(X \ {x})
-             SumA(X) == IF X = {} THEN 0 ELSE LET x == CHOOSE y \in X : TRUE IN bal[x] + SumA(X \ {x})
-         IN SumR(Realms) + SumA(Holders)
+RECURSIVE SumF(_, _)
+SumF(f, X) == IF X = {} THEN 0 ELSE LET x == CHOOSE y \in X : TRUE IN f[x] + SumF(f, X \ {x})
+Total == SumF(dbal, Realms) + SumF(bal, Holders)
 
 \* ------------------------------------------------------------------ bounded model (M)
 CONSTANTS DiffVals, PriceVals, LimitVals, MaxLen, InitBal
@@ -116,7 +118,7 @@ Next ==
   /\ \E c \in Accounts, m \in LimitVals, df \in [Realms -> DiffVals], np \in PriceVals, nr \in BOOLEAN :
        /\ (np = price \/ nr = restricted)                 \* one parameter change per message at most
        /\ Msg(c, m, 0, df, np, nr)
-       /\ hist' = Append(hist, [act |-> "Msg", caller |-> c, limit |-> m, diffs |-> df, ok |-> MsgOK(c, m, df),
+       /\ hist' = Append(hist, [act |-> "Msg", caller |-> c, limit |-> m, diffs |-> df, ok |-> MsgOK(c, m, 0, df),
                                 price |-> price'])
 Spec == Init /\ [][Next]_vars
 
@@ -127,6 +129,8 @@ TooSmallLimitFails ==
   [][ \A r \in Realms :
         (Last.diffs[r] > 0 /\ Last.diffs[r] * price > (IF Last.limit = 0 THEN DefaultLimit ELSE Last.limit))
           => (~Last.ok /\ UNCHANGED <<storage, deposit, dbal>>) ]_vars
+\* (literally: the FIRST realm in sorted order whose requirement exceeds what is left of the limit;
+\*  the per-realm test above is its consequence for any realm that alone exceeds the whole limit)
 ChargedAtMsgStartPrice ==
   [][ Last.ok => \A r \in Realms :
         Last.diffs[r] > 0 => deposit'[r] - deposit[r] = Last.diffs[r] * price ]_vars     \* price = the OLD price
